@@ -235,4 +235,104 @@ example :
     (run cfg (slow.take 3 ++ [.adv 9, .poll 1])).circ.st = .closed := by
   decide
 
+/-! ## The builder: which configuration a chain of setters produces
+
+The property quantifies over all configurations; a configuration reaches the breaker through the builder. `build` is the
+builder (`TR.Circuit.applySetter`, `BState.toCfg`): each setter overwrites its own field, the classifier setters re-type the
+builder (and must carry every other field over unchanged), `build()` resolves an unset `minimum_number_of_calls` to the
+FINAL `sliding_window_size`. -/
+
+theorem foldl_keeps_min (chain : List Setter) (b : BState) (h : ∀ s ∈ chain, s.isMin = false) :
+    (chain.foldl applySetter b).minCalls = b.minCalls := by
+  induction chain generalizing b with
+  | nil => rfl
+  | cons s tl ih =>
+    rw [List.foldl_cons, ih _ (fun x hx => h x (by simp [hx]))]
+    have := h s (by simp)
+    cases s <;> first | rfl | simp [Setter.isMin] at this
+
+theorem foldl_keeps_size (chain : List Setter) (b : BState) (h : ∀ s ∈ chain, s.isSize = false) :
+    (chain.foldl applySetter b).size = b.size := by
+  induction chain generalizing b with
+  | nil => rfl
+  | cons s tl ih =>
+    rw [List.foldl_cons, ih _ (fun x hx => h x (by simp [hx]))]
+    have := h s (by simp)
+    cases s <;> first | rfl | simp [Setter.isSize] at this
+
+/-- **"Default: same as sliding_window_size".** A chain that never calls `minimum_number_of_calls` — wherever it sets the
+window size, wherever it installs a classifier (`failure_classifier`, `classify_response`), from whichever preset it starts
+(a preset is a chain prefix) — builds a breaker whose minimum is the window size it ENDS UP with:
+`builder().failure_classifier(f).sliding_window_size(4).build()` evaluates after 4 calls, not after 100. -/
+theorem builder_minimum_defaults_to_final_window (msTicks : Nat) (fb : Bool) (chain : List Setter)
+    (h : ∀ s ∈ chain, s.isMin = false) :
+    (build msTicks fb chain).minCalls = (build msTicks fb chain).size := by
+  unfold build BState.toCfg
+  simp only [foldl_keeps_min chain _ h]
+  rfl
+
+/-- An explicit minimum is the one given last, whatever follows it. -/
+theorem builder_minimum_last_wins (msTicks : Nat) (fb : Bool) (pre post : List Setter) (n : Nat)
+    (h : ∀ s ∈ post, s.isMin = false) :
+    (build msTicks fb (pre ++ .minCalls n :: post)).minCalls = n := by
+  unfold build BState.toCfg
+  simp only [List.foldl_append, List.foldl_cons, foldl_keeps_min post _ h]
+  rfl
+
+/-- The window size is the one given last, whatever follows it (classifier setters included). -/
+theorem builder_window_size_last_wins (msTicks : Nat) (fb : Bool) (pre post : List Setter) (n : Nat)
+    (h : ∀ s ∈ post, s.isSize = false) :
+    (build msTicks fb (pre ++ .size n :: post)).size = n := by
+  unfold build BState.toCfg
+  simp only [List.foldl_append, List.foldl_cons, foldl_keeps_size post _ h]
+  rfl
+
+theorem foldl_cls_comm (post : List Setter) (b : BState) (c : Setter) (hc : c.isCls = true)
+    (h : ∀ s ∈ post, s.isCls = false) :
+    post.foldl applySetter (applySetter b c) = applySetter (post.foldl applySetter b) c := by
+  induction post generalizing b with
+  | nil => rfl
+  | cons s tl ih =>
+    have hs := h s (by simp)
+    have hcomm : applySetter (applySetter b c) s = applySetter (applySetter b s) c := by
+      cases c <;> simp [Setter.isCls] at hc <;> cases s <;> simp [Setter.isCls] at hs <;> rfl
+    rw [List.foldl_cons, List.foldl_cons, hcomm]
+    exact ih _ (fun x hx => h x (by simp [hx]))
+
+/-- **The position of the classifier setter in the chain does not matter**: installing the classifier early
+(`builder().failure_classifier(f).sliding_window_size(n)…`) builds exactly the configuration that installing it last does —
+every other setting, set before or after, arrives unchanged. -/
+theorem classifier_setter_commutes (msTicks : Nat) (fb : Bool) (pre post : List Setter) (c : Setter)
+    (hc : c.isCls = true) (h : ∀ s ∈ post, s.isCls = false) :
+    build msTicks fb (pre ++ c :: post) = build msTicks fb (pre ++ post ++ [c]) := by
+  unfold build
+  simp only [List.foldl_append, List.foldl_cons, List.foldl_nil]
+  rw [foldl_cls_comm post _ c hc h]
+
+/-- The presets, as documented (layer.rs): `standard` 50 % / window 100 / 30 s / 3 trial calls, `fast_fail` 25 % / 20 / 10 s / 1,
+`tolerant` 75 % / 200 / 60 s / 5 — each with the minimum equal to its window; customising a preset's window afterwards
+moves the minimum with it. All of them permit at least one trial call (the hypothesis of the C09 bounds). -/
+example :
+    let std := build 1 false (presetChain 1 "standard")
+    let ff := build 1 false (presetChain 1 "fast_fail")
+    let tol := build 1 false (presetChain 1 "tolerant")
+    [std.frNum, std.frDen, std.size, std.minCalls, std.waitMs, std.permitted] = [1, 2, 100, 100, 30000, 3] ∧ std.countBased = true ∧
+    [ff.frNum, ff.frDen, ff.size, ff.minCalls, ff.waitMs, ff.permitted] = [1, 4, 20, 20, 10000, 1] ∧ ff.countBased = true ∧
+    [tol.frNum, tol.frDen, tol.size, tol.minCalls, tol.waitMs, tol.permitted] = [3, 4, 200, 200, 60000, 5] ∧ tol.countBased = true ∧
+    (build 1 false (presetChain 1 "fast_fail" ++ [.cls 1, .size 4])).minCalls = 4 ∧
+    (build 1 false [.clsr 2, .size 3, .wait 50]).minCalls = 3 ∧ (build 1 false [.clsr 2, .size 3, .wait 50]).respCls = true := by
+  decide
+
+set_option maxRecDepth 100000 in
+/-- Non-vacuity of the builder order: `failure_classifier` (only error kind 1 fails) installed BEFORE `sliding_window_size(4)`:
+the fourth failure opens the breaker (the documented machine and the full model), three do not. -/
+example :
+    let cfg := build 1 false [.cls 1, .size 4, .fr 1 1, .wait 1000]
+    let fail (c : Nat) := [Op.arrive c ⟨0, .err 1⟩ 0, .poll c]
+    cfg.minCalls = 4 ∧
+    (run cfg (fail 1 ++ fail 2 ++ fail 3)).circ.st = .closed ∧
+    (run cfg (fail 1 ++ fail 2 ++ fail 3 ++ fail 4)).circ.st = .opened ∧
+    (specRun cfg (List.replicate 4 (Act.call true 0))).1.st = .opened := by
+  decide
+
 end TR.Props.C04
